@@ -23,12 +23,16 @@ SPACES = {
     "quick": [
         dict(nv=3, maxl=2, classes=ALL6),
         dict(nv=3, maxl=3, minl=3, classes=("D", "U", "O")),
+        dict(nv=2, maxl=6, minl=4, classes=("D",)),                # many links on one vertex
     ],
     "thorough": [
         dict(nv=3, maxl=3, classes=ALL6),
         dict(nv=3, maxl=2, classes=ALL6, mutations=True),
         dict(nv=2, maxl=4, minl=4, classes=("D", "Us", "O")),
         dict(nv=4, maxl=3, minl=3, classes=("D", "U", "O")),
+        dict(nv=3, maxl=4, minl=4, classes=("D", "U", "O")),
+        dict(nv=2, maxl=7, minl=5, classes=("D", "O")),            # many links on one vertex
+        dict(nv=3, maxl=8, minl=5, classes=("D",), pairs=[(0, 1), (0, 2), (1, 0)]),
     ],
 }
 FILTERS = ("none", "accept", "reject", "selv", "sell")
